@@ -1,15 +1,15 @@
-\* thorough: 8 majors x 15 additional-information classes = 120 representatives per byte (14 521 prefixes, 1 742 520 strings)
+\* C12 thorough: 8 x 15 = 120 representatives per byte (14 521 prefixes, 1 742 520 strings) + shapes; all byte-level theorems
 SPECIFICATION TabSpec
 CONSTANTS
   AIs = {0, 1, 2, 3, 20, 21, 22, 23, 24, 25, 26, 27, 28, 30, 31}
   Ints <- DeepInts
   Strs <- DeepStrs
   Tags <- DeepTags
+  Simples <- NoSimples
   MaxStack = 1
   MaxNodes = 1
   MaxDepth = 1
   MaxArr = 0
   MaxPairs = 0
   AllowWrap = FALSE
-  Simples <- NoSimples
-INVARIANTS Emit DecOnlyWellFormed ReEncodeIffCanonical DecEncDec CanonicalIsWellFormed ItemLenStable
+INVARIANTS Emit ItemLenStable DecOnlyWellFormed ReEncodeIffCanonical DecEncDec CanonicalIsWellFormed
